@@ -29,18 +29,32 @@ def formula_creds(names, nv):
     return {"scenarios": {"1": sc}, "extra": [["app", "r1"], ["nobody", "x"]]}
 
 
-def cred_module(name, base, table, names, nv, extra_defs=""):
-    """TLA+ module `name` EXTENDS `base` defining RunCredOf(s, n, v) from the table and RunInit... (constants a
-    .cfg file cannot express)."""
+def cred_module(name, base, table, names, nv, extra_defs="", exact_keys=False):
+    """TLA+ module `name` EXTENDS `base` defining RunCredOf(s, n, v) from the table, the string functions
+    RunJoinKey / RunSplitUser / RunSplitPw as tables over the credentials of the table (TLA+ strings are atomic:
+    Go's username+":"+password and strings.Split(key, ":") are instantiated here), and extra definitions.
+    exact_keys=True models the proposed repair: the key is the pair itself."""
     arms = []
+    pairs_all = set()
     for s in sorted(table["scenarios"], key=int):
         for n in names:
             for v in range(1, nv + 1):
                 pairs = table["scenarios"][s].get(n, {}).get(str(v), [])
+                pairs_all |= set((u, p) for u, p in pairs)
                 arms.append("s = %s /\\ n = %s /\\ v = %d -> %s" % (
                     s, tla_str(n), v, tla_set("<<%s, %s>>" % (tla_str(u), tla_str(p)) for u, p in pairs)))
     body = "\n      [] ".join(arms + ["OTHER -> {}"])
-    return ("---- MODULE %s ----\nEXTENDS %s\n\nRunCredOf(s, n, v) ==\n  CASE %s\n\n%s\n====\n" % (name, base, body, extra_defs))
+    if exact_keys:
+        keys = "RunJoinKey(u, p) == <<u, p>>\nRunSplitUser(k) == k[1]\nRunSplitPw(k) == k[2]\n"
+    else:
+        pl = sorted(pairs_all)
+        ja = ["u = %s /\\ p = %s -> %s" % (tla_str(u), tla_str(p), tla_str(u + ":" + p)) for u, p in pl]
+        ks = sorted(set(u + ":" + p for u, p in pl))
+        su = ["k = %s -> %s" % (tla_str(k), tla_str(k.split(":")[0])) for k in ks]
+        sp = ["k = %s -> %s" % (tla_str(k), tla_str(k.split(":")[1])) for k in ks]
+        keys = ("RunJoinKey(u, p) ==\n  CASE %s\n\nRunSplitUser(k) ==\n  CASE %s\n\nRunSplitPw(k) ==\n  CASE %s\n" % (
+            "\n      [] ".join(ja + ['OTHER -> "?"']), "\n      [] ".join(su + ['OTHER -> "?"']), "\n      [] ".join(sp + ['OTHER -> "?"'])))
+    return ("---- MODULE %s ----\nEXTENDS %s\n\nRunCredOf(s, n, v) ==\n  CASE %s\n\n%s\n%s\n====\n" % (name, base, body, keys, extra_defs))
 
 
 def init_defs(names, inits):
@@ -58,6 +72,9 @@ CONSTANTS
   NV = %(nv)d
   Scenarios = %(scs)s
   CredOf <- RunCredOf
+  JoinKey <- RunJoinKey
+  SplitUser <- RunSplitUser
+  SplitPw <- RunSplitPw
   InitActive <- RunInit
   Paired = %(paired)s
   Fixed = %(fixed)s
@@ -72,8 +89,9 @@ def cfg_text(spec, names, nv, nsc, paired, fixed, more):
                   "fixed": "TRUE" if fixed else "FALSE", "more": more}
 
 
-def mc(ctx, names, nv, table, inits, paired, fixed, invariants, properties, label, allow_violation=False, timeout=600):
-    mod = cred_module("Reload_run", "Reload_mc", table, names, nv, init_defs(names, inits))
+def mc(ctx, names, nv, table, inits, paired, fixed, invariants, properties, label, allow_violation=False, timeout=600,
+       exact_keys=False):
+    mod = cred_module("Reload_run", "Reload_mc", table, names, nv, init_defs(names, inits), exact_keys=exact_keys)
     more = "INVARIANTS " + " ".join(invariants) + ("\nPROPERTIES " + " ".join(properties) if properties else "")
     cfg = cfg_text("Spec", names, nv, len(table["scenarios"]), paired, fixed, more)
     return ctx.tlc("Reload_run", "reload_run.cfg", extra_files={"Reload_run.tla": mod, "reload_run.cfg": cfg},
@@ -112,13 +130,16 @@ def generate(ctx, names, nv, table, inits, paired, genlen, emit_triples, label, 
     return path, n[0], r
 
 
-def replay(ctx, prop, cases, table, handshake_every=1, trace=None, trace_every=1, max_dev_cases=None):
+def replay(ctx, prop, cases, table, handshake_every=1, trace=None, trace_every=1, max_dev_cases=None, use_ptr=False,
+           extra_env=None):
     """G: replay on the real Manager.  cases = path or list.  Returns (results, summary)."""
     cp = ctx.write_ndjson("creds-%d.json" % random.randrange(1 << 30), [table])
     env = {"VERIF_RELOAD_CREDS": cp, "VERIF_RELOAD_PROP": prop, "VERIF_RELOAD_HANDSHAKE_EVERY": handshake_every,
-           "VERIF_TRACE_OUT": trace or "", "VERIF_RELOAD_TRACE_EVERY": trace_every}
+           "VERIF_TRACE_OUT": trace or "", "VERIF_RELOAD_TRACE_EVERY": trace_every,
+           "VERIF_RELOAD_USE_PTR": 1 if use_ptr else 0}
     if max_dev_cases is not None:
         env["VERIF_MAX_DEV_CASES"] = max_dev_cases
+    env.update(extra_env or {})
     res, summ, out = ctx.harness(PKG, HARNESS, RUN_REPLAY, cases, env=env)
     return res, summ
 
@@ -147,3 +168,192 @@ def report(ctx, res, summ, table, names, nv, context):
                         if v["sig"] == sig:
                             v["count"] += n - 1
                 break
+
+
+# ------------------------------------------------------------------ C29 credential scenarios
+ALPHABET = ["a", "a:b", "b", ":", "a:", "b:a"]
+
+
+def core_scenarios(names):
+    """Hand-picked scenarios around the shapes DESIGN section 6 suspects; namespaces beyond the second get plain,
+    unrelated credentials.  version -> list of [user, password]."""
+    def fill(sc):
+        for i, n in enumerate(names[2:]):
+            sc[n] = {"1": [["b", "c%d" % i]], "2": [["b", "c%d" % i], ["c", "c%d" % i]]}
+        return sc
+    n1, n2 = names[0], names[1]
+    return [
+        # same user name, the other namespace's password extends this one's with ':'
+        fill({n1: {"1": [["a", "a"]], "2": [["a", "a"], ["b", "b"]]}, n2: {"1": [["a", "a:b"]], "2": [["a", "b"]]}}),
+        # user name with ':' whose prefix is another namespace's user
+        fill({n1: {"1": [["a", "b"]], "2": [["a", "b"], ["b", "a"]]}, n2: {"1": [["a:b", "a"]], "2": [["a:b", "b"]]}}),
+        # two different pairs that concatenate to the same user:password text
+        fill({n1: {"1": [["a", "b:a"]], "2": [["a", "a"]]}, n2: {"1": [["a:b", "a"]], "2": [["a:b", "a"], ["b", "b"]]}}),
+        # names and passwords made of ':' only / ending in ':'
+        fill({n1: {"1": [[":", "a"]], "2": [[":", ":"], ["a:", "a"]]}, n2: {"1": [["a:", ":"]], "2": [["a", "a:"]]}}),
+        # two pairs of the same namespace (different versions) that concatenate to the same text
+        fill({n1: {"1": [["a", "b:a"]], "2": [["a:b", "a"]]}, n2: {"1": [["b", "b"]], "2": [["b", "a"]]}}),
+        # no ':' anywhere (control: must be clean)
+        fill({n1: {"1": [["a", "a"]], "2": [["a", "a"], ["b", "b"]]}, n2: {"1": [["a", "b"]], "2": [["b", "a"]]}}),
+    ]
+
+
+def random_scenario(rng, names, nv=2):
+    """Seeded: 1-2 credentials per configuration over ALPHABET x ALPHABET, user names distinct inside a configuration
+    (models.Namespace.Verify demands it), pairs of different namespaces disjoint, user names shared on purpose."""
+    for _ in range(1000):
+        sc = {}
+        owner = {}
+        ok = True
+        for n in names:
+            sc[n] = {}
+            for v in range(1, nv + 1):
+                k = rng.choice([1, 1, 2])
+                users = rng.sample(ALPHABET[:4] if rng.random() < 0.6 else ALPHABET, k)
+                cfg = []
+                for u in users:
+                    p = rng.choice(ALPHABET)
+                    if owner.get((u, p), n) != n:
+                        ok = False
+                    owner[(u, p)] = n
+                    cfg.append([u, p])
+                sc[n][str(v)] = cfg
+        if ok:
+            return sc
+    raise RuntimeError("no scenario found")
+
+
+def c29_table(rng, names, nrandom):
+    scs = core_scenarios(names) + [random_scenario(rng, names) for _ in range(nrandom)]
+    used = set()
+    for sc in scs:
+        for n in sc:
+            for v in sc[n]:
+                for u, p in sc[n][v]:
+                    used.add((u, p))
+    return {"scenarios": {str(i + 1): sc for i, sc in enumerate(scs)},
+            "extra": [[u, p] for u in ALPHABET for p in ALPHABET]}
+
+
+# ------------------------------------------------------------------ direction V
+SEQ_TRACE_CFG = """SPECIFICATION TraceSpec
+CONSTANTS
+  NS = %(ns)s
+  NV = %(nv)d
+POSTCONDITION TraceAccepted
+CHECK_DEADLOCK FALSE
+"""
+
+LIN_CFG = """SPECIFICATION Spec
+CONSTANTS
+  NS = %(ns)s
+  NV = %(nv)d
+  Level = "%(level)s"
+  Admins = %(admins)s
+INVARIANTS Mark
+CHECK_DEADLOCK FALSE
+"""
+
+
+def validate_sequential(ctx, names, nv, lines, label="sequential traces"):
+    """TLC judges every recorded step of sequential executions with the P-level step relation.
+    Returns the set of (trace id, step index) TLC rejects."""
+    lines = [e for e in lines if not e.get("summary")]
+    if not lines:
+        return set(), 0
+    tp = ctx.write_ndjson("seqtrace-%d.ndjson" % random.randrange(1 << 30), lines)
+    cfg = SEQ_TRACE_CFG % {"ns": tla_set(tla_str(n) for n in names), "nv": nv}
+    r = ctx.tlc("Reload_trace", "reload_trace.cfg", mode="tv", extra_files={"trace.ndjson": tp, "reload_trace.cfg": cfg},
+                allow_violation=True, timeout=900, label=label)
+    if r.violated:
+        raise vlib.Inconclusive("sequential trace validation did not consume the whole trace (%s, see %s)" % (r.violated, ctx._keep(r.out_path)))
+    rej = set()
+    for p in r.prints:
+        if p.startswith('<<"REJECT"'):
+            body = p[2:-2].split(",")
+            rej.add((int(body[1]), int(body[2])))
+    ids = set(e["t"] for e in lines)
+    return rej, len(ids)
+
+
+def concurrent_trials(rng, names, nv, ntrials, max_ops):
+    """Seeded workloads: 2-3 administrators, each a short realistic script (update = prepare;commit, delete,
+    lone prepare / commit), at most max_ops operations in total, one reader."""
+    trials = []
+    all_names = names
+    for t in range(ntrials):
+        nadm = rng.choice([2, 2, 3])
+        names = all_names if (t % 2 or len(all_names) < 3) else all_names[:2]
+        init = [rng.choice([0, 1]) if n in names else 0 for n in all_names]
+        admins = [[] for _ in range(nadm)]
+        total = 0
+        while total < max_ops:
+            a = rng.randrange(nadm)
+            n = rng.choice(names)
+            kind = rng.choice(["update", "update", "delete", "prepare", "commit"])
+            if kind == "update" and total + 2 <= max_ops:
+                admins[a] += [{"op": "prepare", "n": n, "v": rng.randint(1, nv)}, {"op": "commit", "n": n, "v": 0}]
+                total += 2
+            elif kind == "delete":
+                admins[a].append({"op": "delete", "n": n, "v": 0})
+                total += 1
+            elif kind == "prepare":
+                admins[a].append({"op": "prepare", "n": n, "v": rng.randint(1, nv)})
+                total += 1
+            else:
+                admins[a].append({"op": "commit", "n": n, "v": 0})
+                total += 1
+            if rng.random() < 0.25:
+                break
+        admins = [a for a in admins if a]
+        if len(admins) < 2:
+            admins.append([{"op": "delete", "n": rng.choice(names), "v": 0}])
+        lookups = [rng.choice(names) for _ in range(rng.randint(0, 3))]
+        trials.append({"t": t, "sc": 1, "ns": all_names, "init": init, "admins": admins, "lookups": lookups})
+    return trials
+
+
+def run_concurrent(ctx, names, nv, table, trials):
+    """Run the trials on the real Manager; returns the recorded events grouped by trial (list of lists)."""
+    cp = ctx.write_ndjson("creds-%d.json" % random.randrange(1 << 30), [table])
+    tp = ctx.path("conc-trace-%d.ndjson" % random.randrange(1 << 30))
+    res, summ, out = ctx.harness(PKG, HARNESS, RUN_CONC, trials, env={"VERIF_RELOAD_CREDS": cp, "VERIF_TRACE_OUT": tp})
+    if summ["cases"] != len(trials):
+        raise vlib.Inconclusive("concurrent driver ran %d of %d trials" % (summ["cases"], len(trials)))
+    by = {}
+    order = []
+    for e in ctx.read_ndjson(tp):
+        if e.get("summary"):
+            continue
+        if e["t"] not in by:
+            by[e["t"]] = []
+            order.append(e["t"])
+        by[e["t"]].append(e)
+    return [by[t] for t in order], summ
+
+
+def linearize(ctx, names, nv, histories, level, label, timeout=900):
+    """TLC decides which recorded concurrent histories are explained at `level` ("P", "A", "S").
+    Returns the set of accepted history ids."""
+    if not histories:
+        return set()
+    lines = []
+    for h in histories:
+        lines += h
+    # nx: index (1-based) of the first line of the next history
+    pos = 1
+    for hi, h in enumerate(histories):
+        nxt = pos + len(h)
+        for e in h:
+            e["nx"] = nxt if hi + 1 < len(histories) else 0
+        pos = nxt
+    admins = sorted(set(e["a"] for e in lines) | {0})
+    tp = ctx.write_ndjson("lin-%s-%d.ndjson" % (level, random.randrange(1 << 30)), lines)
+    cfg = LIN_CFG % {"ns": tla_set(tla_str(n) for n in names), "nv": nv, "level": level, "admins": tla_set(str(a) for a in admins)}
+    r = ctx.tlc("Reload_lin", "reload_lin.cfg", mode="tv", extra_files={"trace.ndjson": tp, "reload_lin.cfg": cfg},
+                timeout=timeout, label=label)
+    acc = set()
+    for p in r.prints:
+        if p.startswith('<<"ACCEPT"'):
+            acc.add(int(p[2:-2].split(",")[1]))
+    return acc
